@@ -86,7 +86,8 @@ AliasAllowed(r, m) ==
 (* ---- designation families of the two operands of a binary call.  Lane k of the result is the operation on the k-th DESIGNATED
    operands whatever the relation between the two designations: the operands may be given by the same base pointer with
    identical strides / index lists (the call then computes op(x, x)), with lists that agree in some lanes only, or with the
-   same cells in another order.  Level "base": operands a and b are one array (same base pointer), each with its own stride /
+   same cells in another order.  Level "sep": two arrays, the family is a relation between the two address sequences (equal
+   strides / index lists, even one index-list object, do not make two arrays one operand).  Level "base": operands a and b are one array (same base pointer), each with its own stride /
    index list; the family is a relation between the two address sequences.  Level "word": separate storage, the family is the
    same relation between the operand words (registers and broadcast elements have no address).
      "eq"    identical in every lane            "one"   different in exactly lane dl
@@ -94,7 +95,7 @@ AliasAllowed(r, m) ==
      "perm"  equal as multisets, different as sequences                                          "any"  no relation claimed
    Together with an in-place mode (ca / cb) the only same-base designation inside the property is "eq" with the result's
    address map: one array, one map (other overlaps of an operand with the result are partial overlaps). *)
-DesLevels == {"none", "base", "word"}
+DesLevels == {"none", "sep", "base", "word"}
 DesFamilies == {"none", "eq", "h1", "h2", "one", "perm", "any"}
 Differ(nl, x, y) == {k \in Lanes(nl) : x[k + 1] # y[k + 1]}
 SameBag(nl, x, y) == \A k \in 1..nl : Cardinality({j \in 1..nl : x[j] = x[k]}) = Cardinality({j \in 1..nl : y[j] = x[k]})
